@@ -832,3 +832,65 @@ func TestVerif_C19_ConcurrentCalls(t *testing.T) {
 		rep.Case("C19", id, ok > 0, id, map[string]interface{}{"workers": workers, "callsEach": callsEach, "succeeded": ok, "failedRightly": failed, "versions": atomic.LoadInt64(&version)})
 	}
 }
+
+// C20 (hook side): hosted controllers are started concurrently by two reconcilers (composite and
+// decorator) and restarted later. Building the hook executors of many controllers at once, and
+// then building each of them again (a restart with the same hook URL), always succeeds: "a
+// configuration that can start" does not depend on who else was starting at the same moment.
+func TestVerif_C20_ConcurrentExecutorConstruction(t *testing.T) {
+	rep := sim.R()
+	for round := 0; round < sim.Pick(3, 20); round++ {
+		id := fmt.Sprintf("c20-concurrent-executor-construction-%d", round)
+		if !sim.WantCase(id) {
+			continue
+		}
+		rep.Begin("C20", id)
+		const n = 24
+		build := func(i int) error {
+			url := fmt.Sprintf("http://hook.sim/none/%s-%d", id, i)
+			ct := common.CompositeController
+			if i%2 == 1 {
+				ct = common.DecoratorController
+			}
+			var err error
+			if stack, p := sim.Guard(func() {
+				_, err = NewWebhookExecutor(&v1alpha1.Webhook{URL: &url}, fmt.Sprintf("ctl-%s-%d", id, i), ct, common.SyncHook)
+			}); p {
+				return fmt.Errorf("panic: %s", stack)
+			}
+			return err
+		}
+		var wg sync.WaitGroup
+		errs1 := make([]error, n)
+		start := make(chan struct{})
+		for i := 0; i < n; i++ {
+			i := i
+			wg.Add(1)
+			go func() { defer wg.Done(); <-start; errs1[i] = build(i) }()
+		}
+		close(start)
+		wg.Wait()
+		failed := 0
+		var first string
+		for i := 0; i < n; i++ {
+			if errs1[i] != nil {
+				failed++
+				if first == "" {
+					first = fmt.Sprintf("first start of controller %d: %v", i, errs1[i])
+				}
+				continue
+			}
+			// the restart: same controller, same hook URL
+			if err := build(i); err != nil {
+				failed++
+				if first == "" {
+					first = fmt.Sprintf("restart of controller %d: %v", i, err)
+				}
+			}
+		}
+		if failed > 0 {
+			rep.Violation("C20", id, "executor-construction-failed-after-concurrent-start", fmt.Sprintf("%d of %d usable webhook configurations could not be (re)built after their executors had first been built concurrently; %s", failed, n, first), nil)
+		}
+		rep.Case("C20", id, true, id, map[string]interface{}{"controllers": n, "failed": failed})
+	}
+}
